@@ -35,6 +35,7 @@ type Gen struct {
 	live    []int // upload handles that may still be used
 	serial  int
 	pastMan []pastManifest
+	closed  map[int]bool // HTTPSafe: handles whose writer was closed and not yet resumed
 }
 
 type pastManifest struct {
@@ -436,6 +437,33 @@ func (g *Gen) Next() *Op {
 	case UpResume, UpWrite, UpClose, UpCommit, UpCancel, UpSize:
 		op.Handle = g.live[g.C.Int("up.h", len(g.live))]
 		u := g.M.Uploads[op.Handle]
+		if g.Cfg.HTTPSafe {
+			// A buffering client loses unflushed data when a writer is dropped, and reports
+			// a stale offset only when it flushes: over HTTP writers are used in the
+			// disciplined way (close before resume, resume at the true offset).
+			if g.closed == nil {
+				g.closed = map[int]bool{}
+			}
+			if g.closed[op.Handle] {
+				kind = UpResume
+			} else if kind == UpResume {
+				kind = UpClose
+			}
+			op.Kind = kind
+			switch kind {
+			case UpClose:
+				g.closed[op.Handle] = true
+			case UpResume:
+				g.closed[op.Handle] = false
+				op.Repo = u.Repo
+				op.Offset = int64(len(u.Buf))
+				if len(u.Buf) != 1 && g.C.Bool("up.ask", 1, 2) {
+					op.Offset = -1
+				}
+				op.ChunkSize = []int{0, 1, 100, 8192}[g.C.Int("up.chunk", 4)]
+				return op
+			}
+		}
 		switch kind {
 		case UpResume:
 			op.Repo = u.Repo
